@@ -213,7 +213,7 @@ func body(c *nd.Ctx) nd.Result {
 	readAll := c.Choose(2, "handler-reads-payload") == 1
 	wiring := c.Choose(3, "wiring") // 0 bare handler, 1 mux with matching IQ handler(s), 2 mux without
 	precede := c.Choose(2, "preceded-by-answered-request") == 1
-	if (r.ext || r.id == " " || r.id == "\u00a0") && (r.to != tos[0] || r.payload != payloads[0] || r.xmlns != "" || precede) {
+	if (r.ext || r.id == " " || r.id == "\u00a0") && (r.to != tos[0] || r.payload != payloads[1] || r.xmlns != "" || precede) {
 		// the rarer header shapes are combined with the first value of the
 		// dimensions that do not look at the header
 		return nd.Result{Skip: true}
